@@ -910,7 +910,74 @@ def _class_of_call(repo: Repo, view: FuncInfo, call: ast.Call):
     return ci
 
 
+def _iterator_stack_to_worklist(node: ast.AST) -> bool:
+    """A stack of iterators used as worklist,
+
+        W = [iter([root])]                         W = [root]
+        while W:                                   while W:
+            for n in W[-1]:                            n = W.pop()
+                if c(n): break              ->         if not c(n): continue
+            else:                                      BODY .. W.extend(children)
+                W.pop(); continue
+            BODY .. W.append(reversed(children))
+
+    hands out the same nodes with the same test `c`, in another order - which the model of a search does not talk about."""
+    changed = False
+    for loop in [n for n in ast.walk(node) if isinstance(n, ast.While)]:
+        if not (isinstance(loop.test, ast.Name) and loop.body and isinstance(loop.body[0], ast.For)):
+            continue
+        w = loop.test.id
+        f0 = loop.body[0]
+        it = f0.iter
+        if not (isinstance(f0.target, ast.Name) and isinstance(it, ast.Subscript) and isinstance(it.value, ast.Name) and it.value.id == w and isinstance(it.slice, ast.UnaryOp) and isinstance(it.slice.op, ast.USub) and isinstance(it.slice.operand, ast.Constant) and it.slice.operand.value == 1):
+            continue
+        if not (len(f0.body) == 1 and isinstance(f0.body[0], ast.If) and not f0.body[0].orelse and len(f0.body[0].body) == 1 and isinstance(f0.body[0].body[0], ast.Break)):
+            continue
+        oe = f0.orelse
+        if not (len(oe) == 2 and isinstance(oe[0], ast.Expr) and isinstance(oe[0].value, ast.Call) and isinstance(oe[0].value.func, ast.Attribute) and oe[0].value.func.attr == "pop" and isinstance(oe[0].value.func.value, ast.Name) and oe[0].value.func.value.id == w and not oe[0].value.args and isinstance(oe[1], ast.Continue)):
+            continue
+        # the initial stack: [iter(X)] / [X]
+        inits = [n for n in ast.walk(node) if isinstance(n, ast.Assign) and len(n.targets) == 1 and isinstance(n.targets[0], ast.Name) and n.targets[0].id == w]
+        if len(inits) != 1 or not (isinstance(inits[0].value, ast.List) and len(inits[0].value.elts) == 1):
+            continue
+        first = inits[0].value.elts[0]
+        if isinstance(first, ast.Call) and isinstance(first.func, ast.Name) and first.func.id in ("iter", "reversed") and len(first.args) == 1:
+            first = first.args[0]
+        pushes = [c for c in ast.walk(loop) if isinstance(c, ast.Call) and isinstance(c.func, ast.Attribute) and isinstance(c.func.value, ast.Name) and c.func.value.id == w and c.func.attr == "append" and len(c.args) == 1]
+        others = [c for c in ast.walk(node) if isinstance(c, ast.Call) and isinstance(c.func, ast.Attribute) and isinstance(c.func.value, ast.Name) and c.func.value.id == w and c.func.attr not in ("append", "pop")]
+        if others:
+            continue
+        inits[0].value = first if isinstance(first, (ast.List, ast.Tuple)) else ast.copy_location(ast.Call(func=ast.Name(id="list", ctx=ast.Load()), args=[first], keywords=[]), first)
+        for c in pushes:
+            c.func.attr = "extend"
+        pop = ast.copy_location(ast.Assign(targets=[ast.Name(id=f0.target.id, ctx=ast.Store())], value=ast.Call(func=ast.Attribute(value=ast.Name(id=w, ctx=ast.Load()), attr="pop", ctx=ast.Load()), args=[], keywords=[])), f0)
+        skip = ast.copy_location(ast.If(test=ast.copy_location(ast.UnaryOp(op=ast.Not(), operand=f0.body[0].test), f0), body=[ast.copy_location(ast.Continue(), f0)], orelse=[]), f0)
+        loop.body[0:1] = [pop, skip]
+        changed = True
+    if changed:
+        ast.fix_missing_locations(node)
+    return changed
+
+
 def _desugared_generator(f: FuncInfo) -> FuncInfo:
+    g = _desugared_generator0(f)
+    if isinstance(g.node, ast.Lambda):
+        return g
+    cached = g.__dict__.get("_unstacked")
+    if cached is not None:
+        return cached
+    node = _clone_src(g.node, g)
+    if not _iterator_stack_to_worklist(node):
+        g.__dict__["_unstacked"] = g
+        return g
+    set_parents(node)
+    h = FuncInfo(name=g.name, qualname=g.qualname, node=node, module=g.module, cls=g.cls, decorators=list(g.decorators), outer=g.outer)
+    g.__dict__["_unstacked"] = h
+    h.__dict__["_unstacked"] = h
+    return h
+
+
+def _desugared_generator0(f: FuncInfo) -> FuncInfo:
     """The generator with every `yield from X` statement written as the loop it stands for: `for v in XS: if c: yield e` for a
     generator expression / comprehension X, `for t in X: yield t` otherwise (X may be another generator helper, substituted in turn)."""
     if isinstance(f.node, ast.Lambda) or not any(isinstance(n, ast.YieldFrom) for n in own_nodes(f.node)):
@@ -1248,7 +1315,57 @@ def _inline_object_methods(repo: Repo, view: FuncInfo) -> bool:
     return changed
 
 
-def _inline_local_callables(view: FuncInfo) -> bool:
+def _expand_starred_literals(fn: ast.AST) -> bool:
+    """`f(*edge)` where `edge = [a, b]` is bound once to a literal of plain names: `f(a, b)`."""
+    single = _single_assignments(fn)
+    changed = False
+    for c in ast.walk(fn):
+        if not isinstance(c, ast.Call) or not any(isinstance(a, ast.Starred) for a in c.args):
+            continue
+        new_args: list[ast.expr] = []
+        ok = True
+        for a in c.args:
+            if isinstance(a, ast.Starred):
+                v = single.get(a.value.id) if isinstance(a.value, ast.Name) else None
+                if isinstance(v, (ast.List, ast.Tuple)) and v.elts and all(isinstance(x, ast.Name) for x in v.elts):
+                    new_args += [ast.copy_location(ast.Name(id=x.id, ctx=ast.Load()), a) for x in v.elts]
+                else:
+                    ok = False
+                    break
+            else:
+                new_args.append(a)
+        if ok:
+            c.args = new_args
+            changed = True
+    return changed
+
+
+def _is_enum_member(repo: Repo, e: ast.AST) -> str | None:
+    """`Cls.MEMBER` text for a member of an Enum class of the library."""
+    if isinstance(e, ast.Attribute) and isinstance(e.value, ast.Name):
+        ci = _unique_class(repo, e.value.id)
+        if ci is not None and any(norm(b).split(".")[-1] in ("Enum", "IntEnum", "StrEnum", "Flag") for b in ci.base_exprs) and e.attr in ci.class_attrs:
+            return f"{ci.name}.{e.attr}"
+    return None
+
+
+class _FoldVerdicts(ast.NodeTransformer):
+    """`Edge.FOLLOW is Edge.FOLLOW` -> True, `Edge.FOLLOW is Edge.REPORT` -> False (members of one Enum are distinct objects)."""
+
+    def __init__(self, repo: Repo) -> None:
+        self.repo = repo
+
+    def visit_Compare(self, n: ast.Compare):  # noqa: N802
+        self.generic_visit(n)
+        if len(n.ops) == 1 and isinstance(n.ops[0], (ast.Is, ast.IsNot, ast.Eq, ast.NotEq)):
+            a, b = _is_enum_member(self.repo, n.left), _is_enum_member(self.repo, n.comparators[0])
+            if a is not None and b is not None and a.split(".")[0] == b.split(".")[0]:
+                same = a == b
+                return ast.copy_location(ast.Constant(value=same if isinstance(n.ops[0], (ast.Is, ast.Eq)) else not same), n)
+        return n
+
+
+def _inline_local_callables(view: FuncInfo, repo: Repo | None = None) -> bool:
     """Callables that live inside the function itself - the callback protocol (`_walk(graph, start, on_import=record)` once `_walk`
     is substituted leaves `record(node, child)` behind):
 
@@ -1283,8 +1400,8 @@ def _inline_local_callables(view: FuncInfo) -> bool:
                 continue
             if isinstance(n.value, ast.Lambda) and not (n.value.args.vararg or n.value.args.kwarg or n.value.args.kwonlyargs):
                 defs[tgt.id] = n.value
-            elif isinstance(n.value, ast.Attribute) and isinstance(n.value.value, ast.Name) and n.value.attr in (_GROW | _SHRINK | {"__contains__"}) and stores.get(n.value.value.id, 0) <= 1:
-                defs[tgt.id] = n.value  # a bound method of a local collection
+            elif isinstance(n.value, ast.Attribute) and isinstance(n.value.value, ast.Name) and n.value.attr in (_GROW | _SHRINK | {"__contains__", SUCC, PRED, HIER}) and stores.get(n.value.value.id, 0) <= 1:
+                defs[tgt.id] = n.value  # a bound method of a local collection / an accessor of the graph (`neighbours_of = graph.direct_successor_nodes`)
     # local generator functions (`def visit(node): .. yield child`): consumed by `X.extend(visit(n))` or `for v in visit(n):`
     gens: dict[str, ast.FunctionDef] = {}
     for n in ast.walk(fn):
@@ -1507,10 +1624,67 @@ def _inline_local_callables(view: FuncInfo) -> bool:
                 return Sub().visit(expr)
             return n
 
+    def verdict_split(g: ast.FunctionDef, st: ast.Assign, rest: list[ast.stmt]) -> list[ast.stmt] | None:
+        """`v = judge(a, b)` where the local function answers with one of several constants (`return Edge.FOLLOW` ..) on different
+        paths, followed by statements that branch on v: the function's decision tree with, at every answer, `v = <answer>` and what
+        follows in the block - the tests on v decided there (`Edge.FOLLOW is Edge.FOLLOW`)."""
+        from core.inline_stmt import single_exit
+
+        if repo is None or not isinstance(st.targets[0], ast.Name) or len(rest) > 6:
+            return None
+        v_ = st.targets[0].id
+        call = st.value
+        rets = [x for s_ in g.body for x in ast.walk(s_) if isinstance(x, ast.Return)]
+        if len(rets) < 2 or any(r.value is None or _is_enum_member(repo, r.value) is None and not isinstance(r.value, ast.Constant) for r in rets):
+            return None
+        if any(isinstance(x, (ast.For, ast.While, ast.Try, ast.With)) for s_ in g.body for x in ast.walk(s_)):
+            return None
+        b = bind(g.args, call)
+        if b is None or not all(isinstance(x, (ast.Name, ast.Constant)) or (isinstance(x, ast.Call) and not any(isinstance(y, ast.Call) for a_ in x.args for y in ast.walk(a_))) for x in b.values()):
+            return None
+        body = [_clone(s_) for s_ in g.body if not (isinstance(s_, ast.Expr) and isinstance(s_.value, ast.Constant)) and not isinstance(s_, ast.Nonlocal)]
+        if any(isinstance(n_, ast.Name) and isinstance(n_.ctx, ast.Store) for s_ in body for n_ in ast.walk(s_)):
+            return None  # a pure decision: no locals
+
+        class Sub(ast.NodeTransformer):
+            def visit_Name(self, m_: ast.Name):  # noqa: N802
+                if m_.id in b and isinstance(m_.ctx, ast.Load):
+                    return _clone(b[m_.id])
+                return m_
+
+            def visit_Lambda(self, m_):  # noqa: N802
+                return m_
+
+        body = [Sub().visit(s_) for s_ in body]
+        fold = _FoldVerdicts(repo)
+        bools = _FoldBools()
+
+        def on_return(ret: ast.Return) -> list[ast.stmt]:
+            answer = ret.value
+
+            class Ans(ast.NodeTransformer):
+                def visit_Name(self, m_: ast.Name):  # noqa: N802
+                    if m_.id == v_ and isinstance(m_.ctx, ast.Load):
+                        return _clone(answer)
+                    return m_
+
+            cont: list[ast.stmt] = []
+            for r_ in _clone(rest):
+                r2 = bools.visit(fold.visit(Ans().visit(r_)))
+                if r2 is None:
+                    continue
+                cont += r2 if isinstance(r2, list) else [r2]
+            return [ast.copy_location(ast.Assign(targets=[ast.Name(id=v_, ctx=ast.Store())], value=answer), ret), *cont]
+
+        out_, terminated = single_exit(body, on_return)
+        if not terminated:
+            return None
+        return out_
+
     def block(stmts: list[ast.stmt]) -> list[ast.stmt]:
         nonlocal changed
         out: list[ast.stmt] = []
-        for st in stmts:
+        for idx, st in enumerate(stmts):
             if isinstance(st, (ast.FunctionDef, ast.AsyncFunctionDef, ast.ClassDef)):
                 out.append(st)
                 continue
@@ -1521,6 +1695,13 @@ def _inline_local_callables(view: FuncInfo) -> bool:
             if isinstance(st, ast.Try):
                 for h in st.handlers:
                     h.body = block(h.body) or [ast.copy_location(ast.Pass(), st)]
+            if isinstance(st, ast.Assign) and len(st.targets) == 1 and isinstance(st.value, ast.Call) and isinstance(st.value.func, ast.Name) and isinstance(defs.get(st.value.func.id), ast.FunctionDef):
+                rest_ = list(stmts[idx + 1:])
+                got_v = verdict_split(defs[st.value.func.id], st, rest_)
+                if got_v is not None:
+                    out += got_v
+                    changed = True
+                    return out  # what followed in the block now sits behind every answer
             # `X.extend(g(a))` with a plain local function: `tmp = g(a)` first
             if isinstance(st, ast.Expr) and isinstance(st.value, ast.Call) and isinstance(st.value.func, ast.Attribute) and len(st.value.args) == 1 and isinstance(st.value.args[0], ast.Call) and isinstance(st.value.args[0].func, ast.Name) and isinstance(defs.get(st.value.args[0].func.id), ast.FunctionDef):
                 tmp_ = f"result_of_{st.value.args[0].func.id.strip('_')}"
@@ -2350,7 +2531,9 @@ def search_view(repo: Repo, fi: FuncInfo) -> FuncInfo:
         v0.__dict__["objects"] = objects_seen
         changed = _hoist_helper_calls(repo, v0)
         changed = _inline_object_methods(repo, v0) or changed
-        changed = _inline_local_callables(v0) or changed
+        _fold_constants(v0.node)  # a literal flag handed to a substituted helper decides its conditional expressions now
+        changed = _expand_starred_literals(v0.node) or changed
+        changed = _inline_local_callables(v0, repo) or changed
         changed = _recursion_to_worklists(repo, v0) or changed
         changed = _generator_comprehensions_to_loops(repo, v0) or changed
         changed = _inline_generator_loops(repo, v0) or changed
